@@ -14,7 +14,7 @@
 
 From Coq Require Import String List NArith Bool Arith.
 From Nexus Require Import Conc.SkelTypes Conc.Machine Conc.MachineFacts Conc.Shutdown
-  Conc.ShutdownWitness Conc.ShutdownProofs Conc.ShutdownLock Conc.ShutdownFlag Conc.ShutdownWg Conc.ShutdownCloser Conc.ShutdownTimers Conc.ShutdownServers Conc.Skeleton Conc.SkelObligationsC06 gen.GenSkeleton.
+  Conc.ShutdownWitness Conc.ShutdownProofs Conc.ShutdownLock Conc.ShutdownFlag Conc.ShutdownWg Conc.ShutdownCloser Conc.ShutdownTimers Conc.ShutdownServers Conc.ShutdownOwn Conc.Skeleton Conc.SkelObligationsC06 gen.GenSkeleton.
 Import ListNotations.
 
 (** ** Tie to the source, re-established on every run *)
@@ -134,6 +134,21 @@ Theorem close_no_panic_handlers_vs_servers :
     (forall l, In l (procs s) -> joining l = false).
 Proof. exact ShutdownServers.servers_closed_handlers_gone. Qed.
 Print Assumptions close_no_panic_handlers_vs_servers.
+
+
+(** realm.close itself never closes one of its channels twice and never sends
+    on one it has already closed (the closer part of close_no_panic): a run of
+    realm.close that passed the closed check and has not reached the position
+    where [c] is closed sees [c] open — whether Router.Close and RemoveRealm run
+    concurrently, one after the other, or twice. *)
+Theorem close_no_panic_closer :
+  forall (scr : nat -> list msg * bool) (K : nat) (p : params) (s : sstate) (l : L) (c : ch),
+    sreach all_fixed scr K (init p) s -> outcome s = None ->
+    In l (procs s) -> late_closed c = true ->
+    2 <= cpos l -> cpos l <= close_pos c ->
+    c_closed (chans s c) = false.
+Proof. exact ShutdownOwn.closer_channels_open. Qed.
+Print Assumptions close_no_panic_closer.
 
 Theorem closed_flag_monotone :
   forall (scr : nat -> list msg * bool) (K : nat) (s : sstate) e s',
